@@ -26,7 +26,7 @@ na = [{"property_id": p, "reason": src["not_applicable"].get(p, "check not built
       for p in props if p not in src["checks"]]
 m = {
     "version": 1,
-    "setup_cmd": src["setup_cmd"],
+    "setup_cmd": "cd /verif/harness && CARGO_NET_OFFLINE=true cargo build --release --offline " + " ".join("-p vc-" + c["property_id"].lower() for c in checks),
     "hooks": src["hooks"],
     "engines": src["engines"],
     "checks": checks,
